@@ -74,7 +74,25 @@ impl Prop for Voicing {
         tier.pick(8_000, 120_000)
     }
     fn decode(&self, t: &mut Tape, _: Tier) -> Case {
-        let base = gen_engine_case(t, 12, 15, false, GenOpts::default());
+        let mut base = gen_engine_case(t, 12, 15, false, GenOpts::default());
+        // voice sets: in half of them the F0 stream's parameter weights extrapolate mildly
+        // ((1+e, -e, 0..), e <= 0.5 keeps every variance positive because the variants' variances
+        // are within [0.7,1.4] of the base voice's), so that an interpolated voicing weight can leave
+        // [0,1]; the rule "voiced iff weight > threshold" is then exercised at the threshold 1.0
+        if let crate::engine_case::VoiceChoice::GeneratedSet { voices, weights } = &mut base.voice {
+            if t.chance(0.5) {
+                let e = t.dyadic(3, 32, 64);
+                let mut w = vec![0.0; voices.len()];
+                w[0] = 1.0 + e;
+                w[1] = -e;
+                if (w.iter().sum::<f64>() - 1.0).abs() <= f64::EPSILON {
+                    weights[2] = w;
+                    if t.chance(0.6) {
+                        base.cond.msd_threshold[1] = Some(1.0);
+                    }
+                }
+            }
+        }
         let tie_state = if t.chance(0.4) { Some(t.below(1000)) } else { None };
         let tie_offset = t.below(5);
         let higher = t.unit();
